@@ -28,6 +28,7 @@ Proof.
            | (if ?b then _ else _) = _ => destruct b
            end;
     repeat match goal with
+           | H : wx_scan f q ?x = Some ?r0 |- wx_scan f' q ?x = Some ?r0 => exact (IH q x r0 H f' Hle)
            | H : match wx_scan f q ?x with _ => _ end = Some _ |- _ =>
                let E := fresh "E" in destruct (wx_scan f q x) as [[t rs]|] eqn:E; [|discriminate];
                rewrite (IH q x (t, rs) E f' Hle); exact H
@@ -62,6 +63,8 @@ Proof.
       { apply Bool.orb_true_iff in Ectl. destruct Ectl as [E|E]; [apply N.ltb_lt in E; lia | apply N.eqb_eq in E; lia]. }
       change ((92 :: 120 :: hex2 c) ++ T) with (92 :: 120 :: (hex2 c ++ T)).
       cbn [wx_scan]. change (92 =? 34) with false. change (92 =? 92) with true. cbv iota.
+      change (120 =? 10) with false. change (120 =? 8232) with false. change (120 =? 8233) with false. cbn [orb]. cbv iota.
+      change (120 =? 13) with false. cbv iota.
       change (120 =? 114) with false. change (120 =? 110) with false. change (120 =? 116) with false.
       change (120 =? 98) with false. change (120 =? 102) with false. change (120 =? 118) with false.
       change (120 =? 48) with false. change (120 =? 120) with true. cbv iota. cbn [orb].
